@@ -1,4 +1,5 @@
 // Positive controls for the C07 rules whose expected count on the library is zero.
+#include <cassert>
 #include <vector>
 namespace coloquinte {
 namespace selftest7 {
@@ -19,6 +20,13 @@ struct Costs {
     const unsigned long n = rows.size() - 1;
     for (unsigned long i = 0; i < n; ++i) s += rows[i];
     return s;
+  }
+  // AS: the assertion excludes pred == next == -1 although -1 is the accepted "no neighbour" value of each
+  int between(int pred, int next) const {
+    assert(pred != next);
+    assert(pred == -1 || pred < (int)rows.size());
+    assert(next == -1 || next < (int)rows.size());
+    return (next == -1 ? (int)rows.size() : next) - (pred == -1 ? 0 : pred);
   }
   // E2: loop step that can be zero
   int stride(int nb) const {
